@@ -345,6 +345,10 @@ func (fs *memFS) RemoveAll(ctx context.Context, name string) error {
 
 	dir, frag, err := fs.find("remove", name)
 	if err != nil {
+		if os.IsNotExist(err) {
+			// Like os.RemoveAll, removing what is not there is not an error.
+			return nil
+		}
 		return err
 	}
 	if dir == nil {
